@@ -125,11 +125,21 @@ check('C14', 'E2-world',
       'DESIGN.md section 7 C14')
 
 
+check('C17', 'E2-world',
+      'Seeded histories over the Data mutation API with valid and invalid arguments (calls rejected after they began to act), inside and '
+      'outside a collection and hub delay windows, with a recording hub listener; after every step structural invariants on the real '
+      'object, and at quiescence the multiset of structural messages must equal the diff of the before/after snapshots (nothing changed '
+      'unannounced, nothing announced that did not happen). Sampling, not proof.',
+      'Across a delay window only net requirements are checked; update_values_from_data to another ndim and update_id under dependent derived attributes are open findings excluded by guards.',
+      'deterministic simulation: seeded mutation history with rejected calls and delay windows + invariant and message-vs-snapshot-diff oracle',
+      'DESIGN.md section 7 C17')
+
+
 def na(pid, reason):
     NA[pid] = dict(property_id=pid, reason=reason)
 
 PENDING = 'check under construction in this build round (see DESIGN.md section 7); not claimed until its oracle is proven sound on the unchanged tree'
-for pid in [ 'C11', 'C16', 'C17', 'C18']:
+for pid in [ 'C11', 'C16', 'C18']:
     na(pid, PENDING)
 na('C08', 'pure function of region parameters and points: no schedule, clock, fault, shared state or history for a simulator to vary (DESIGN.md section 8)')
 na('C09', 'pure translation roi -> subset state; nothing stateful or faulty involved (DESIGN.md section 8)')
